@@ -254,6 +254,57 @@ func (d *Data) write_denorms_with_check(ctx *datastore.VersionedCtx, store stora
 	close(ch)
 	wg.Wait()
 	timedLog.Infof("Finished checked denormalization of %d kvs, %d changed (%d errors)", numProcessed, numChanged, numErrs)
+
+	// The pass above only visits labels and tags that still have elements in the blocks.
+	// A stored label or tag list whose last element is gone is incorrect as well.
+	numDeleted, err := d.deleteStaleDenorms(ctx, store, labelE, tagE)
+	if err != nil {
+		dvid.Errorf("Error removing stale denormalizations of data %q: %v\n", d.DataName(), err)
+	}
+	timedLog.Infof("Finished check for label and tag kvs without elements, %d removed", numDeleted)
+}
+
+// deleteStaleDenorms removes stored label and tag denormalizations that have no
+// corresponding elements in the given correct denormalizations.
+func (d *Data) deleteStaleDenorms(ctx *datastore.VersionedCtx, store storage.OrderedKeyValueDB,
+	labelE LabelElements, tagE map[Tag]ElementsNR) (numDeleted int, err error) {
+
+	labelKeys, err := store.KeysInRange(ctx, storage.MinTKey(keyLabel), storage.MaxTKey(keyLabel))
+	if err != nil {
+		return numDeleted, fmt.Errorf("unable to get label keys: %v", err)
+	}
+	for _, tk := range labelKeys {
+		label, err := DecodeLabelTKey(tk)
+		if err != nil {
+			return numDeleted, err
+		}
+		if _, found := labelE[label]; found {
+			continue
+		}
+		if err := store.Delete(ctx, tk); err != nil {
+			return numDeleted, fmt.Errorf("unable to delete stale elements of label %d: %v", label, err)
+		}
+		numDeleted++
+	}
+
+	tagKeys, err := store.KeysInRange(ctx, storage.MinTKey(keyTag), storage.MaxTKey(keyTag))
+	if err != nil {
+		return numDeleted, fmt.Errorf("unable to get tag keys: %v", err)
+	}
+	for _, tk := range tagKeys {
+		tag, err := DecodeTagTKey(tk)
+		if err != nil {
+			return numDeleted, err
+		}
+		if _, found := tagE[tag]; found {
+			continue
+		}
+		if err := store.Delete(ctx, tk); err != nil {
+			return numDeleted, fmt.Errorf("unable to delete stale elements of tag %q: %v", tag, err)
+		}
+		numDeleted++
+	}
+	return numDeleted, nil
 }
 
 type denormJSON struct {
